@@ -172,11 +172,11 @@ def universe(case):
 # description -> live modules and objects
 # ----------------------------------------------------------------------------------
 
-def class_source(case, mod) -> str:
-    """Source of all classes of one module; nested classes are grouped under their holder chain."""
+def class_source(case, mod, only=None) -> str:
+    """Source of all classes of one module (only: just these ids); nested classes are grouped under their holder chain."""
     tree: dict = {}
     for c in case["classes"]:
-        if c["module"] != mod:
+        if c["module"] != mod or (only is not None and c["id"] not in only):
             continue
         parts = c["qual"].split(".")
         node = tree
@@ -547,3 +547,294 @@ def unresolvable_case(rng: random.Random):
          "fields": [("f0", wrap(rng.choice(["plain", "list", "opt"]), ("cls", 0), "opt")), ("s", INT)]}
     root = rng.choice([("cls", 0), ("cls", 1), ("gen", "list", [("cls", 0)]), ("gen", "dict", [STR, ("cls", 1)])])
     return {"classes": [a, b], "named": [], "root": root, "tag": "unresolvable"}
+
+
+# ----------------------------------------------------------------------------------
+# operation histories (round 3): the class environment CHANGES between calls of graph.static_order
+#
+# A history case is an ordinary case (classes = every class with the fields it is DECLARED with, root = the
+# last annotation asked) plus case['history'], a list of steps run in ONE process without clearing any cache:
+#   {'op': 'define',   'ids': [k...]}                      the class statements of these classes are executed
+#   {'op': 'annotate', 'cls': k, 'field': f, 'type': desc, 'as': 'text' | 'object'}
+#                                                          k.__annotations__[f] = <annotation> (a new member, or
+#                                                          another type for a member k already has)
+#   {'op': 'call',     'fn': 'static_order' | 'itertypes', 'root': desc}
+# A class statement may name classes defined by a LATER step (forward references; every module starts with
+# `from __future__ import annotations`).  The environment "as it is" at a call (LiveHistory.snapshot):
+#   * a defined class all of whose member annotations name defined classes has its current members
+#     (declared + annotated so far) -- typing.get_type_hints succeeds;
+#   * a defined class one of whose annotations names a class not defined yet has the members the SIGNATURE
+#     fall-back gives: dataclass -> every declared field as ForwardRef(<source text>, module=<its module>),
+#     NamedTuple -> the same without module (what was put into its annotation table later: as put there),
+#     TypedDict / plain class -> none.
+# ----------------------------------------------------------------------------------
+FUTURE = "from __future__ import annotations\n"
+
+
+def cls_ids(d):
+    return {s[1] for s in subterms(d) if s[0] == "cls"}
+
+
+class LiveHistory:
+    """The module of a history case, built step by step."""
+
+    def __init__(self, case):
+        ensure_enum_module()
+        self.case = case
+        self.source = {MOD_A: HEADER}
+        self.mods = {MOD_A: impl.new_module(MOD_A, HEADER)}
+        setattr(self.mods[MOD_A], MOD_A, self.mods[MOD_A])
+        self.defined: list[int] = []
+        self.declared = {c["id"]: list(c["fields"]) for c in case["classes"]}
+        self.fields = {c["id"]: list(c["fields"]) for c in case["classes"]}
+        self.form = {c["id"]: {f: "declared" for f, _ in c["fields"]} for c in case["classes"]}
+        self.registry: dict = {}
+        self.ambiguous: list = []
+
+    # -- steps --------------------------------------------------------------------
+    def define(self, ids):
+        s = class_source(self.case, MOD_A, only=ids)
+        self.source[MOD_A] += s
+        exec(compile(FUTURE + s, f"<verif:{MOD_A}>", "exec", dont_inherit=True), self.mods[MOD_A].__dict__)
+        self.defined += [k for k in ids]
+        for k in ids:       # the annotation texts the interpreter stored are the texts the model is given
+            c = cls_by_id(self.case, k)
+            if c["flavour"] in ("dataclass", "plainclass"):
+                got = dict(vars(self.cls(k)).get("__annotations__", {}))
+                want = {f: src(self.case, t, MOD_A) for f, t in c["fields"]}
+                assert got == want, (got, want)
+
+    def cls(self, k):
+        return eval(cls_by_id(self.case, k)["qual"], self.mods[MOD_A].__dict__)
+
+    def annotate(self, step):
+        k, f, t = step["cls"], step["field"], step["type"]
+        text = src(self.case, t, MOD_A)
+        self.source[MOD_A] += f"{cls_by_id(self.case, k)['qual']}.__annotations__[{f!r}] = " + \
+            (repr(text) if step["as"] == "text" else text) + "\n"
+        self.cls(k).__annotations__[f] = text if step["as"] == "text" else self.obj(t)
+        cur = self.fields[k]
+        self.form[k][f] = step["as"]
+        if any(g == f for g, _ in cur):
+            self.fields[k] = [(g, t if g == f else u) for g, u in cur]
+        else:
+            self.fields[k] = cur + [(f, t)]
+
+    # -- the environment as it is ----------------------------------------------------
+    def resolved(self, k) -> bool:
+        return all(j in self.defined for _, t in self.fields[k] for j in cls_ids(t))
+
+    def members(self, k):
+        if self.resolved(k):
+            return list(self.fields[k])
+        fl = cls_by_id(self.case, k)["flavour"]
+        if fl == "dataclass":
+            return [(f, ("ref", src(self.case, t, MOD_A), MOD_A)) for f, t in self.declared[k]]
+        if fl == "namedtuple":
+            # a NamedTuple's __annotations__ IS the annotation table of its __new__: the signature shows, for the
+            # declared parameters, whatever the table holds now -- the class statement's ForwardRef (no module),
+            # an object put there later as it is, a text put there later as a reference with the class's module
+            cur = dict(self.fields[k])
+            out = []
+            for f, _ in self.declared[k]:
+                how, t = self.form[k][f], cur[f]
+                out.append((f, t if how == "object" else ("ref", src(self.case, t, MOD_A), None if how == "declared" else MOD_A)))
+            return out
+        return []
+
+    def reaches_unresolved(self, root) -> bool:
+        todo, seen = list(cls_ids(root)), set()
+        while todo:
+            k = todo.pop()
+            if k in seen:
+                continue
+            seen.add(k)
+            if not self.resolved(k):
+                return True
+            todo += [j for _, t in self.fields[k] for j in cls_ids(t)]
+        return False
+
+    def reaches_reannotated(self, root) -> bool:
+        """does root reach a class, other than a plain class, whose annotation table was edited after the class
+        statement?  (what its "fields" are is then ambiguous: dataclasses.fields / _fields / __required_keys__
+        still say what the class statement said; for a plain class the table is the only definition there is)"""
+        todo, seen = list(cls_ids(root)), set()
+        while todo:
+            k = todo.pop()
+            if k in seen:
+                continue
+            seen.add(k)
+            if cls_by_id(self.case, k)["flavour"] != "plainclass" and any(h != "declared" for h in self.form[k].values()):
+                return True
+            if self.resolved(k):
+                todo += [j for _, t in self.fields[k] for j in cls_ids(t)]
+        return False
+
+    def snapshot(self, root, tag=""):
+        """The ordinary (single call) case describing the environment at this moment; refreshes the registry."""
+        classes = [dict(cls_by_id(self.case, k), fields=self.members(k)) for k in self.defined]
+        snap = {"classes": classes, "named": [], "root": root, "tag": tag or self.case["tag"]}
+        self.registry = {}
+        for d in universe(snap):
+            try:
+                o = self.obj(d)
+                if o in self.registry and freeze(self.registry[o]) != freeze(d):
+                    self.ambiguous.append((d, self.registry[o]))
+                    continue
+                self.registry[o] = d
+            except TypeError:
+                pass
+        return snap
+
+    obj = Live.obj
+    describe = Live.describe
+
+
+HIST_FLAVOURS = ["dataclass", "dataclass", "dataclass", "namedtuple", "typeddict", "plainclass"]
+
+
+def hist_classes(n, mask, rng: random.Random, flavours=None):
+    """n module-level classes of MOD_A; edge i->j iff bit i*n+j of mask (the member f<j> of class i)."""
+    optspell = [rng.choice(["opt", "pipe_none"]) for _ in range(n)]
+    classes = []
+    for i in range(n):
+        fl = flavours[i] if flavours else rng.choice(HIST_FLAVOURS)
+        fields = []
+        for j in range(n):
+            if (mask >> (i * n + j)) & 1:
+                fields.append((f"f{j}", wrap(rng.choice(EDGE_KINDS), ("cls", j), optspell[j])))
+        r = rng.random()
+        if r < 0.45 or not fields:
+            fields.append(("s", rng.choice([INT, STR, ("s", "Decimal")])))
+        if 0.45 <= r < 0.55:
+            fields.append(("u", ("any",)))
+        classes.append({"id": i, "module": MOD_A, "qual": f"C{i}", "flavour": fl, "fields": fields})
+    return classes, optspell
+
+
+def hist_root(rng, j, optspell, kinds=None):
+    return wrap(rng.choice(kinds or ROOT_KINDS), ("cls", j), optspell[j])
+
+
+def _fresh_calls(rng, defined, optspell, asked, k, fn_iter=0.0):
+    """k calls on annotations over the defined classes, preferring ones not asked before"""
+    out = []
+    for _ in range(k):
+        for _try in range(6):
+            root = hist_root(rng, rng.choice(defined), optspell)
+            if freeze(root) not in asked:
+                break
+        fn = "itertypes" if rng.random() < fn_iter else "static_order"
+        if fn == "static_order":
+            asked.add(freeze(root))
+        out.append({"op": "call", "fn": fn, "root": root})
+    return out
+
+
+def history_late_case(n, mask, order, cut, prime_kind, rng: random.Random, flavours=None, prime_fn="static_order"):
+    """Late definition: the classes order[:cut] are defined, ONE annotation over the first of them is asked
+    (the priming call: it walks through classes whose referenced names may not exist yet), the rest is
+    defined, then annotations NOT asked before are asked over every class -- as root and inside containers."""
+    classes, optspell = hist_classes(n, mask, rng, flavours)
+    asked: set = set()
+    steps = [{"op": "define", "ids": list(order[:cut])}]
+    prime = wrap(prime_kind, ("cls", order[0]), optspell[order[0]])
+    steps.append({"op": "call", "fn": prime_fn, "root": prime})
+    if prime_fn == "static_order":
+        asked.add(freeze(prime))
+    if cut < n:
+        steps.append({"op": "define", "ids": list(order[cut:])})
+    # afterwards: every class in a container not asked before, the primed class first; plus its plain form
+    later = []
+    for j in [order[0]] + [x for x in order if x != order[0]]:
+        kinds = [k for k in ROOT_KINDS if freeze(wrap(k, ("cls", j), optspell[j])) not in asked]
+        kinds = [k for k in kinds if k != "plain"] or kinds
+        root = wrap(rng.choice(kinds), ("cls", j), optspell[j])
+        asked.add(freeze(root))
+        later.append({"op": "call", "fn": "static_order", "root": root})
+    steps += later
+    steps.append({"op": "call", "fn": rng.choice(["static_order", "itertypes"]), "root": ("cls", order[0])})
+    return {"classes": classes, "named": [], "root": later[-1]["root"], "history": steps,
+            "tag": f"history-late:n{n}:m{mask}:o{''.join(map(str, order))}:c{cut}:{prime_kind}:{prime_fn}"}
+
+
+def history_random_case(rng: random.Random, n: int):
+    """Definitions in random stages, calls between them, members added to / retyped on classes already used."""
+    mask = rng.randrange(1 << (n * n))
+    classes, optspell = hist_classes(n, mask, rng)
+    order = list(range(n))
+    rng.shuffle(order)
+    steps, defined, asked = [], [], set()
+    fields = {c["id"]: [f for f, _ in c["fields"]] for c in classes}
+    extra = 0
+    pos = 0
+    while pos < n:
+        k = rng.choice([1, 1, 2, n])
+        ids = order[pos:pos + k]
+        pos += len(ids)
+        steps.append({"op": "define", "ids": ids})
+        defined += ids
+        steps += _fresh_calls(rng, defined, optspell, asked, rng.choice([1, 1, 2]), fn_iter=0.2)
+        # a member registered on a class after its first use (sometimes naming a class defined later: text form)
+        if rng.random() < 0.6:
+            plain = [k for k in defined if classes[k]["flavour"] == "plainclass"]
+            c = rng.choice(plain) if plain and rng.random() < 0.6 else rng.choice(defined)
+            later_ok = rng.random() < 0.15
+            j = rng.choice(range(n) if later_ok else defined)
+            t = rng.choice([wrap(rng.choice(EDGE_KINDS), ("cls", j), optspell[j]), INT, ("gen", "list", [STR])])
+            if fields[c] and rng.random() < 0.3:
+                f = rng.choice(fields[c])           # another type for a member it already has
+            else:
+                f = f"a{extra}"
+                extra += 1
+                fields[c].append(f)
+            how = "text" if (j not in defined or rng.random() < 0.5) else "object"
+            steps.append({"op": "annotate", "cls": c, "field": f, "type": t, "as": how})
+            steps += _fresh_calls(rng, defined, optspell, asked, rng.choice([1, 2]), fn_iter=0.15)
+    steps += _fresh_calls(rng, defined, optspell, asked, rng.choice([1, 2, 3]), fn_iter=0.15)
+    last = [s for s in steps if s["op"] == "call"][-1]["root"]
+    return {"classes": classes, "named": [], "root": last, "history": steps, "tag": f"history-random:n{n}:m{mask}"}
+
+
+def history_annotate_case(rng: random.Random, n: int):
+    """Every class defined at once and used; then members are added / retyped; then NEW annotations are asked."""
+    mask = rng.randrange(1 << (n * n))
+    flavours = [rng.choice(HIST_FLAVOURS) for _ in range(n)]
+    flavours[rng.randrange(n)] = "plainclass"       # e.g. a settings class plugins register options on
+    classes, optspell = hist_classes(n, mask, rng, flavours)
+    ids = list(range(n))
+    plain = [i for i in ids if flavours[i] == "plainclass"]
+    steps, asked = [{"op": "define", "ids": ids}], set()
+    steps += _fresh_calls(rng, ids, optspell, asked, rng.choice([1, 2]), fn_iter=0.25)
+    fields = {c["id"]: [f for f, _ in c["fields"]] for c in classes}
+    for r in range(rng.choice([1, 1, 2])):
+        c = rng.choice(plain) if rng.random() < 0.7 else rng.choice(ids)
+        j = rng.choice(ids)
+        t = rng.choice([wrap(rng.choice(EDGE_KINDS), ("cls", j), optspell[j]), INT, ("s", "UUID"),
+                        ("gen", "dict", [STR, ("s", "float")])])
+        if fields[c] and rng.random() < 0.3:
+            f = rng.choice(fields[c])
+        else:
+            f = f"a{r}"
+            fields[c].append(f)
+        steps.append({"op": "annotate", "cls": c, "field": f, "type": t, "as": rng.choice(["text", "object"])})
+        # the class just changed, inside a container not asked before, first
+        kinds = [k for k in ROOT_KINDS[1:] if freeze(wrap(k, ("cls", c), optspell[c])) not in asked] or ROOT_KINDS[1:]
+        root = wrap(rng.choice(kinds), ("cls", c), optspell[c])
+        asked.add(freeze(root))
+        steps.append({"op": "call", "fn": "static_order", "root": root})
+        steps += _fresh_calls(rng, ids, optspell, asked, rng.choice([1, 2]), fn_iter=0.15)
+    last = [s for s in steps if s["op"] == "call"][-1]["root"]
+    return {"classes": classes, "named": [], "root": last, "history": steps, "tag": f"history-annotate:n{n}:m{mask}"}
+
+
+def show_step(case, st) -> str:
+    """one history step as the Python statement(s) it stands for (for replays and reports)"""
+    if st["op"] == "define":
+        return "define " + ", ".join(cls_by_id(case, k)["qual"] for k in st["ids"]) + ": " + \
+            class_source(case, MOD_A, only=st["ids"]).replace("\n", "; ")
+    if st["op"] == "annotate":
+        text = src(case, st["type"], MOD_A)
+        return f"{cls_by_id(case, st['cls'])['qual']}.__annotations__[{st['field']!r}] = " + \
+            (repr(text) if st["as"] == "text" else text)
+    return f"graph.{st['fn']}({src(case, st['root'], MOD_A)})"
